@@ -101,10 +101,12 @@ class Verifier:
         self.functions = {}       # function name -> info for the evidence
         self.undecided = []       # (name, reason)
         self.covers = []
+        self.stmt_seen = set()
         self.stats = {'paths': 0}
 
     def new_executor(self, config):
         ex = Executor(self.repo, self.facts, config, self.ref_modules)
+        ex.stmt_seen = self.stmt_seen      # statement coverage of the real code by the symbolic executions (vacuity guard, see runner)
         return ex
 
     def note_function(self, name):
@@ -161,6 +163,10 @@ class Verifier:
                 raise Unsupported('no type declared for parameter %s' % p)
         st.env.update(vals)
         st.ghost['$args'] = dict(vals)
+        if node.args.kwarg and node.args.kwarg.arg in argtags:
+            # the values passed as keyword arguments are nameable in clauses as kw_<name> (the kwargs dict itself may be consumed by pop())
+            for nm, val in items.items():
+                st.ghost['$args']['kw_' + nm] = val
         st.env['$class'] = SV('cname', None)
         st.ghost['$pre'] = (st.tok, dict(st.arr))
         return st
@@ -323,13 +329,22 @@ class Verifier:
         for ob in exi.obligations + exr.obligations:
             self.add(ob['name'], c.func, ob['clause'], ob['pc'], ob['goal'], 'invariant')
         # loop-body equivalence for every summarised loop
-        for lname in sorted(set(jobs_i) | set(jobs_r)):
-            if c.kw.get('skip_loop_bodies'):
-                break      # the generic loop-body obligations do not depend on the case; they are generated with the first case
-            if lname not in jobs_i or lname not in jobs_r:
-                self.undecided.append(('%s::%s' % (label, lname), 'loop reached on one side only'))
-                continue
-            self._loop_body_equiv(c.label, c, lname, exi, jobs_i[lname], exr, jobs_r[lname])
+        # (a worklist: executing an outer loop's body registers the loops nested in it, which need their own obligations)
+        done = set()
+        n_i, n_r = len(exi.obligations), len(exr.obligations)
+        while not c.kw.get('skip_loop_bodies'):   # the generic loop-body obligations do not depend on the case; they are generated with the first case
+            pending = sorted((set(jobs_i) | set(jobs_r)) - done)
+            if not pending:
+                break
+            for lname in pending:
+                done.add(lname)
+                if lname not in jobs_i or lname not in jobs_r:
+                    self.undecided.append(('%s::%s' % (label, lname), 'loop reached on one side only'))
+                    continue
+                self._loop_body_equiv(c.label, c, lname, exi, jobs_i[lname], exr, jobs_r[lname])
+        # obligations raised while executing loop bodies (e.g. the head invariant of a nested loop established inside an outer body)
+        for ob in exi.obligations[n_i:] + exr.obligations[n_r:]:
+            self.add(ob['name'], c.func, ob['clause'], ob['pc'], ob['goal'], 'invariant')
 
     def _final_terms(self, ex, o, observe, at_keys):
         """publish what escapes through the outcome and collect the observable components"""
@@ -497,7 +512,5 @@ class Verifier:
                     return terms
                 return f
             self._match('%s::%s' % (label, lname), c, exa, outs_a, exb, outs_b, 'body-equiv', extra(exa, ja), extra(exb, jb))
-            for ob in exa.obligations[ja.get('nobl', 0):] + exb.obligations[jb.get('nobl', 0):]:
-                pass
         except Unsupported as e:
             self.undecided.append(('%s::%s' % (label, lname), 'outside the verified subset: %s' % e))
